@@ -16,7 +16,7 @@ theorem rangeFile_bound (size : Nat) : ∀ (secs : List Sec) (rva min o l : Nat)
     · rw [if_pos c1] at h
       by_cases c2 : s.prd ≤ wadd32 s.prd s.rs ∧ wadd32 s.prd s.rs ≤ size
       · rw [if_pos c2] at h
-        by_cases c3 : rva - s.va ≤ wadd32 s.prd s.rs - s.prd ∧ wadd32 s.prd s.rs - s.prd - (rva - s.va) ≥ min
+        by_cases c3 : rva - s.va < wadd32 s.prd s.rs - s.prd ∧ wadd32 s.prd s.rs - s.prd - (rva - s.va) ≥ min
         · rw [if_pos c3] at h
           simp only [Out.ok.injEq, Prod.mk.injEq] at h
           obtain ⟨rfl, rfl⟩ := h
